@@ -268,6 +268,8 @@ func aGenOps(t *rapid.T, e *aEnv, p aProfile, fresh *int) []aOp {
 				return aGenReentrantBurst(t, e, db, key, fresh)
 			} else if x < 45 {
 				return aGenLongWaitScenario(t, e, db, key, fresh)
+			} else if x < 60 {
+				return aGenPrioDrainScenario(t, e, db, key, fresh)
 			}
 			return aGenBurst(t, e, db, key, fresh)
 		}
@@ -364,6 +366,10 @@ func aGenOps(t *rapid.T, e *aEnv, p aProfile, fresh *int) []aOp {
 		if p.persist {
 			// nothing may expire or time out during the case, and no deadline may fall near the restart instant
 			op.T, op.TF = 0, op.TF&^(tfMINUTE|tfWWU)
+			if op.F&fUPDATE != 0 && pct(t, "pUpdTimeoutFlag") < 35 {
+				// time-out flags of the core subset that mean nothing with Timeout 0 but are part of the command in force
+				op.TF |= tfMINUTE
+			}
 			off := e.c.EpochOff
 			op.EF &^= efMINUTE | efUNLIMITED | 0x1300
 			switch x := pct(t, "pExpClass"); {
@@ -670,6 +676,50 @@ func aGenLongWaitScenario(t *rapid.T, e *aEnv, db, key int, fresh *int) []aOp {
 		}
 	}
 	ops = append(ops, step(), step())
+	return ops
+}
+
+// aGenPrioDrainScenario: a wait queue in priority mode whose highest priority level is drained completely while lower
+// levels stay queued, then newcomers with priorities between the live maximum and the drained one (they may pass the
+// queue only if their priority exceeds every queued one; an admissible request must not stay at the head), mixed Counts.
+func aGenPrioDrainScenario(t *rapid.T, e *aEnv, db, key int, fresh *int) []aOp {
+	id := func() int { *fresh++; return 100 + *fresh }
+	cnt := rapid.SampledFrom([]int{1, 1, 2, 3}).Draw(t, "pdCount")
+	hi := rapid.SampledFrom([]int{5, 9, 200, 255}).Draw(t, "pdHigh")
+	lo := rapid.SampledFrom([]int{0, 0, 1, 2}).Draw(t, "pdLow")
+	h := id()
+	ops := []aOp{{K: "lock", Db: db, Key: key, Id: h, Cnt: rapid.SampledFrom([]int{0, cnt}).Draw(t, "pdHolderCount"), E: 600}}
+	nLow := rapid.IntRange(1, 3).Draw(t, "pdLowN")
+	for i := 0; i < nLow; i++ {
+		op := aOp{K: "lock", C: 1 % len(e.clients), Db: db, Key: key, Id: id(), Cnt: rapid.SampledFrom([]int{0, 0, cnt}).Draw(t, "pdLowCount"), T: 600, E: 600}
+		if lo > 0 || pct(t, "pdLowFlag") < 50 {
+			op.TF, op.Rc = tfPRIO, lo
+		}
+		ops = append(ops, op)
+	}
+	nHigh := rapid.IntRange(1, 3).Draw(t, "pdHighN")
+	for i := 0; i < nHigh; i++ {
+		ops = append(ops, aOp{K: "lock", C: 2 % len(e.clients), Db: db, Key: key, Id: id(), Cnt: cnt, T: 600, E: 600, TF: tfPRIO, Rc: hi})
+	}
+	// the holder leaves: the high level is served (as far as the Counts admit)
+	ops = append(ops, aOp{K: "unlock", Db: db, Key: key, Id: h})
+	for i := rapid.IntRange(1, 4).Draw(t, "pdNew"); i > 0; i-- {
+		mid := lo + 1
+		if hi-1 > lo+1 {
+			mid = rapid.IntRange(lo+1, hi-1).Draw(t, "pdMid")
+		}
+		switch pct(t, "pdNewKind") % 4 {
+		case 0:
+			mid = hi
+		case 1:
+			mid = lo
+		}
+		ops = append(ops, aOp{K: "lock", C: i % len(e.clients), Db: db, Key: key, Id: id(), Cnt: rapid.SampledFrom([]int{cnt, cnt, 0, 0xffff}).Draw(t, "pdNewCount"), T: rapid.SampledFrom([]int{0, 600}).Draw(t, "pdNewT"), E: 600, TF: tfPRIO, Rc: mid})
+		if pct(t, "pdUnlockBetween") < 40 {
+			*fresh++
+			ops = append(ops, aOp{K: "unlock", Db: db, Key: key, Id: 100 + *fresh, F: ufFIRST})
+		}
+	}
 	return ops
 }
 
